@@ -145,33 +145,37 @@ def Tok.isClose : Tok → Bool
   | .closeObj | .closeArr => true
   | _ => false
 
-/-- MayAppendDelim (state.go:389). -/
-def delim (e : Enc) (t : Tok) : Bytes :=
-  if e.last.needValue then [0x3a]
-  else if decide (e.last.len > 0) && !t.isClose && !e.stack.isEmpty then [0x2c]
+/-- MayAppendDelim (state.go:389), as a function of Tokens.Last / Tokens.Stack. -/
+def delim (last : Frame) (stack : List Frame) (t : Tok) : Bytes :=
+  if last.needValue then [0x3a]
+  else if decide (last.len > 0) && !t.isClose && !stack.isEmpty then [0x2c]
   else []
 
 /-- The state-machine checks that make WriteToken return before touching e.Buf (state.go:270-345). -/
-def accepts (e : Enc) : Tok → Bool
-  | .scalar _ | .openObj | .openArr => !e.last.needName
+def accepts (last : Frame) (stack : List Frame) : Tok → Bool
+  | .scalar _ | .openObj | .openArr => !last.needName
   | .str _ => true
-  | .closeObj => e.last.isObj && !e.last.needValue && !e.stack.isEmpty
-  | .closeArr => !e.last.isObj && !e.stack.isEmpty
+  | .closeObj => last.isObj && !last.needValue && !stack.isEmpty
+  | .closeArr => !last.isObj && !stack.isEmpty
+
+/-- appendLiteral/appendString/pushObject/popObject/pushArray/popArray on (Last, Stack). -/
+def nextFrames (last : Frame) (stack : List Frame) : Tok → Option (Frame × List Frame)
+  | .scalar _ | .str _ => some (last.inc, stack)
+  | .openObj => some (⟨true, 0⟩, last.inc :: stack)
+  | .openArr => some (⟨false, 0⟩, last.inc :: stack)
+  | .closeObj | .closeArr =>
+    match stack with
+    | p :: s => some (p, s)
+    | [] => none
 
 /-- WriteToken/WriteValue/AppendRaw up to `e.Buf = b`: delimiter, whitespace `ws` (chosen by the caller of the model:
 a space after the delimiter and/or newline+indent), token text; then the state machine update.
 `none` = the call is rejected and nothing changes. -/
 def write (e : Enc) (t : Tok) (ws : Bytes) : Option Enc :=
-  if !accepts e t then none else
-  let b := e.buf ++ delim e t ++ ws ++ t.text
-  match t with
-  | .scalar _ | .str _ => some { e with buf := b, last := e.last.inc }
-  | .openObj => some { e with buf := b, stack := e.last.inc :: e.stack, last := ⟨true, 0⟩ }
-  | .openArr => some { e with buf := b, stack := e.last.inc :: e.stack, last := ⟨false, 0⟩ }
-  | .closeObj | .closeArr =>
-    match e.stack with
-    | p :: s => some { e with buf := b, last := p, stack := s }
-    | [] => none
+  if !accepts e.last e.stack t then none else
+  match nextFrames e.last e.stack t with
+  | none => none
+  | some (l, s) => some { e with buf := e.buf ++ delim e.last e.stack t ++ ws ++ t.text, last := l, stack := s }
 
 /-- avoidFlush (encode.go:231-249). -/
 def avoidFlush (e : Enc) : Bool :=
